@@ -124,6 +124,10 @@ class RecordingPool:
             self.child_logs.append(g.log)
         return res
 
+    def imap_unordered(self, func, tasks):
+        """results in completion order (here: reversed) - the sampler must not rely on it for ordered results"""
+        return list(self.map(func, tasks))[::-1]
+
     def close(self):
         pass
 
